@@ -274,6 +274,7 @@ class SkeletonChecker:
                           queries=0, solver_s=0.0, compile_errors=0, unsupported=0, diverged=0, truncated=0,
                           typing_queries=0)
         self.samples = []
+        self.witness_log = []  # a few (program, real outcome) pairs per skeleton for the mixed-history batch (props.mixed_history)
 
     def _holes(self, pattern):
         classes = sorted(set(v for k, v in pattern.values() if k == "class"))
@@ -427,6 +428,9 @@ class SkeletonChecker:
         # per-path witness validation: the real interpreter must do what the machine specification says
         if witnesses:
             outs = self.native.eval_many([w[0] for w in witnesses])
+            for (wsrc, _), j in list(zip(witnesses, outs))[:3] + list(zip(witnesses, outs))[-2:]:
+                if len(self.witness_log) < 8 and native_outcome(j)[0] in ("ok", "err") and len(wsrc) < 2000:
+                    self.witness_log.append((wsrc, {"result": j.get("result"), "output": j.get("output", "")}))
             for (wsrc, exp), j in zip(witnesses, outs):
                 self.stats["witnesses"] = self.stats.get("witnesses", 0) + 1
                 no = native_outcome(j)
